@@ -1,13 +1,13 @@
 HARNESSES = {
     'SelectorStep': dict(split={'call': 5}),
-    'Pipelines': dict(split={'call': 4}, quick=dict(params={'K': 2}), thorough=dict(params={'K': 3})),
+    'Pipelines': dict(split={'call': 4}, quick=dict(params={'K': 2}), thorough=dict(params={'K': 4})),
     'GradientPipelines': dict(),
     'Logger': dict(split={'call': 26}),
 }
 
 BOUNDS = {
     'SelectorStep': 'any styling call, adj/incr/colour symbolic, from any pair of states with selectors congruent modulo 64 (Renderer selectors arbitrary bytes)',
-    'Pipelines': 'K symbolic styling calls (quick 2, thorough 3) then a 3-operation path painted with the resulting registers',
+    'Pipelines': 'K symbolic styling calls (quick 2, thorough 4) then a 3-operation path painted with the resulting registers',
     'GradientPipelines': 'any prior selector state (Renderer selector any byte, Encoder selector the same modulo 64), SetLinearGradient, a path',
     'Logger': 'every method once with arbitrary arguments',
 }
